@@ -1,4 +1,4 @@
-"""C20, open finding genf-selection-depends-on-solver-order.
+"""C20, finding (repaired by fix FIXHASH_GENF; exit 0 on a tree with the fix) genf-selection-depends-on-solver-order.
 
 PYTHONPATH=/repo /venv/bin/python findings/c20_genf_wrong_branch.py   (exit 1 = defect present)
 
